@@ -37,7 +37,7 @@ RULE_FAULTS = (
     ["pattern-file-" + f for f in FILE_FAULTS]
     + ["yaml-broken", "pattern-missing", "pattern-null", "pattern-scalar", "pattern-int", "pattern-mapping", "config-null", "config-scalar", "config-list",
        "cfg-mnemonics-full-match-str", "cfg-mnemonics-full-match-int", "cfg-operands-full-match-str", "cfg-sections-str", "cfg-sections-list-int", "cfg-valid-addr-range-scalar",
-       "cfg-valid-addr-range-list", "cfg-valid-addr-range-no-max", "cfg-valid-addr-range-nonhex", "cfg-style-int", "cfg-style-unknown", "macros-not-list-mapping", "macros-not-list-scalar",
+       "cfg-valid-addr-range-list", "cfg-valid-addr-range-no-max", "cfg-valid-addr-range-nonhex", "cfg-valid-addr-range-unquoted-bounds", "cfg-style-int", "cfg-style-unknown", "macros-not-list-mapping", "macros-not-list-scalar",
        "empty-$and", "empty-$or", "empty-$and_any_order", "empty-$not", "not-2-args", "not-3-args", "deref-no-main-reg",
        "times-neg-int-inside", "times-neg-int-sibling", "times-neg-min-inside", "times-neg-min-sibling", "times-inverted-inside", "times-inverted-sibling",
        "times-neg-int-group", "times-neg-min-group", "times-inverted-group",
@@ -127,6 +127,18 @@ def inject_rule_fault(fault, doc, pos, garbage):
         doc["config"] = "fast"
     elif fault == "config-list":
         doc["config"] = ["mnemonics-full-match"]
+    elif fault == "cfg-valid-addr-range-unquoted-bounds":
+        # the base rule (see evaluate) has correctly quoted bounds and needs them to be found; here the same rule text with one or both
+        # bounds unquoted: YAML reads `min: 0x1000` as the integer 4096 - a wrongly typed entry, loud or read as what was written
+        rng = doc["config"]["valid_addr_range"]
+        which = pos % 3
+        lo = rng["min"] if which == 1 else f'"{rng["min"]}"'
+        hi = rng["max"] if which == 2 else f'"{rng["max"]}"'
+        if which == 0:
+            lo, hi = rng["min"], rng["max"]
+        item = jasm_io.dump_yaml({"pattern": pat})
+        raw = f"config:\n  valid_addr_range:\n    min: {lo}\n    max: {hi}\n{item}"
+        return None, raw, None
     elif fault.startswith("cfg-"):
         cfg = dict(doc.get("config") or {})
         cfg.update({
@@ -296,7 +308,17 @@ def evaluate(case):
         input_path = sc.write("c17.s", render(att_view(L)))
         pattern = case["base"]["pattern"]
         real_text = ""
-    doc = jasm_io.make_doc(pattern)
+    base_cfg = None
+    if fault == "cfg-valid-addr-range-unquoted-bounds":
+        if binary:
+            ev.tags.append("fault-not-applicable-here")
+            return ev
+        lo, hi, tgt = [(0x1000, 0x2000, 0x1050), (0x400000, 0x401000, 0x400800), (0x1000, 0x2000, 0x1fff), (0x10, 0x99, 0x50)][case["pos"] // 3 % 4]
+        L = [[format(tgt - 0x20, "x"), "push", ["%rbp"], ["%rbp"]], [format(tgt - 0x1c, "x"), "call", [f"{tgt:x} <f>"], [f"{tgt:x}"]], [format(tgt - 0x17, "x"), "ret", [], []]]
+        input_path = sc.write("c17.s", render(att_view(L)))
+        pattern = [{"call": ["valid_addr"]}]
+        base_cfg = {"valid_addr_range": {"min": f"0x{lo:x}", "max": f"0x{hi:x}"}}
+    doc = jasm_io.make_doc(pattern, config=base_cfg)
     rule_path = sc.write("c17_rule.yaml", jasm_io.rule_text(doc))
     base = jasm_io.match_files(rule_path, input_path, mode="list", search="all", binary=binary)
     if base[0] != "ok" or not base[1]:
